@@ -185,6 +185,9 @@ class DefaultDeploymentManager(DeploymentManager):
     async def undeploy(self, deployment_name: str) -> None:
         if deployment_name in dict(self.deployments_map):
             await self.events_map[deployment_name].wait()
+            # The deployment may have failed or been undeployed while waiting
+            if deployment_name not in self.deployments_map:
+                return
             # Remove the deployment from the dependency graph
             self.dependency_graph[deployment_name].discard(deployment_name)
             # If there are no more inner deployments, undeploy the environment and clear the related data structures
